@@ -223,7 +223,7 @@ class Query:
             return None
 
         if projection == Projection.RELATIVE:
-            obj: Dict[Union[int, str], Any] = {}
+            obj: Dict[Union[int, str], Any] = _Node()
             for expr in expressions:
                 path = self._env.compile(expr) if isinstance(expr, str) else expr
                 for rel_match in path.finditer(match.obj):  # type: ignore
@@ -240,13 +240,17 @@ class Query:
             return arr
 
         # Project from the root document
-        obj = {}
+        obj = _Node()
         for expr in expressions:
             path = self._env.compile(expr) if isinstance(expr, str) else expr
             for rel_match in path.finditer(match.obj):  # type: ignore
                 _patch_obj(match.parts + rel_match.parts, obj, rel_match.obj)
 
         return _fix_sparse_arrays(obj)
+
+
+class _Node(Dict[Union[int, str], Any]):
+    """An object created by a projection, as opposed to a selected value."""
 
 
 def _patch_obj(
@@ -264,8 +268,12 @@ def _patch_obj(
     # We'll fix these "sparse arrays" after the patch has been applied.
     for part in parts[:-1]:
         if part not in _obj:
-            _obj[part] = {}  # type: ignore
+            _obj[part] = _Node()  # type: ignore
         _obj = _obj[part]
+        if not isinstance(_obj, _Node):
+            # An ancestor of this node was selected as a whole. It belongs to
+            # the document and already contains the node.
+            return
 
     _obj[parts[-1]] = value  # type: ignore
 
@@ -279,7 +287,7 @@ def _fix_sparse_arrays(obj: Any) -> object:
         return [_fix_sparse_arrays(e) for e in obj]
 
     if isinstance(obj, Mapping):
-        if isinstance(next(iter(obj)), int):
+        if isinstance(obj, _Node) and isinstance(next(iter(obj)), int):
             # Array elements keep their relative order, whatever order they
             # were selected in.
             return [_fix_sparse_arrays(v) for _, v in sorted(obj.items())]
